@@ -301,7 +301,9 @@ class MonC03(Monitor):
         self.rows_checked = 0
 
     def on_event(self, world, tag, info):
-        if tag in ('run_return', 'post_toggle'):
+        if tag in ('run_return', 'post_toggle', 'post_add_bound'):
+            # (also after every bound insertion: a run that never returns
+            # because its state is already corrupt must not escape)
             self.check(world, tag)
         elif tag == 'new_sampler' and info['from_file']:
             self.check(world, tag)
